@@ -40,14 +40,24 @@ Buffer_init(BufferObject *self, PyObject *args, PyObject *kwargs)
     if (!PyArg_ParseTupleAndKeywords(args, kwargs, "|ny#", (char**)kwlist, &capacity, &data, &data_len))
         return -1;
 
-    if (data != NULL) {
-        self->base = malloc(data_len);
-        self->end = self->base + data_len;
-        memcpy(self->base, data, data_len);
-    } else {
-        self->base = malloc(capacity);
-        self->end = self->base + capacity;
+    if (data == NULL) {
+        if (capacity < 0) {
+            PyErr_SetString(PyExc_ValueError, "capacity must not be negative");
+            return -1;
+        }
+        data_len = capacity;
     }
+
+    /* never hand out a NULL base: allocate at least one byte */
+    self->base = malloc(data_len ? data_len : 1);
+    if (self->base == NULL) {
+        self->end = self->pos = NULL;
+        PyErr_NoMemory();
+        return -1;
+    }
+    self->end = self->base + data_len;
+    if (data != NULL)
+        memcpy(self->base, data, data_len);
     self->pos = self->base;
     return 0;
 }
